@@ -374,7 +374,7 @@ tm_mon_mday_from_pil		(struct tm *		tm,
 }
 
 static vbi_bool
-is_leap_year			(unsigned int		year)
+is_leap_year			(long			year)
 {
 	if (0 != year % 4)
 		return FALSE;
@@ -389,7 +389,7 @@ tm_leap_day_check		(const struct tm *	tm)
 {
 	return (1 != tm->tm_mon
 		|| tm->tm_mday <= 28
-		|| is_leap_year (tm->tm_year + 1900));
+		|| is_leap_year ((long) tm->tm_year + 1900));
 }
 
 static vbi_bool
